@@ -29,7 +29,7 @@ theorem mapStable_invSN : MapStable InvSN := fun f hf hn s h => ⟨invS_mapNodes
 
 theorem invSN_addNode (fl : Flavour) (c : Nat) (a : NodeArgs) (s : Topo) (ht : TypeArgOk .networkNode a.ntype) (h : InvSN s) :
     InvSN (addNode fl c a s).2 := by
-  rcases addNode_cases fl c a s with ⟨e, he⟩ | ⟨n, v, hf, hc, hty, hnm, hnames, _, hr⟩
+  rcases addNode_post fl c a s with ⟨e, he⟩ | ⟨n, v, hf, hc, hty, hnm, hnames, _, hr⟩
   · rw [he]; exact h
   · rw [hr]
     exact compositeStable_invSN.push h hf (by simp [nodeOk, classOk_all, hc, ht n.typ hty]) hc (by rw [hnm]; exact hnames)
@@ -70,7 +70,7 @@ theorem invSN_addService_nil (fl : Flavour) (c : Nat) (a : SvcArgs) (s : Topo) (
   rcases pick a.nid c with ⟨id, c1⟩
   simp only []
   refine ro_step (Q := fun r => InvSN r.2) (readOnly_need _ _) (fun _ => h) (fun t h1 => ?_)
-  have htt : a.nstype = some t := need_ok ⟨_, h1⟩
+  have htt : a.nstype = some t := need_some ⟨_, h1⟩
   refine ro_step (Q := fun r => InvSN r.2) (readOnly_guard _ _) (fun _ => h) (fun _ _ => ?_)
   refine ro_step (Q := fun r => InvSN r.2) (readOnly_need _ _) (fun _ => h) (fun layer _ => ?_)
   refine ro_step (Q := fun r => InvSN r.2) (readOnly_ofExcept _) (fun _ => h) (fun kw _ => ?_)
